@@ -102,9 +102,12 @@ def run_case(case):
     shape = mk_shape(desc)
     act = case["action"]
     init_bits = case["init_bits"] & mask
+    from vmon.simkit import decoy
     if act in ("RW", "RW1C", "RW1S"):
+        decoy(rng, lambda: getattr(action, act)(shape, init=init_value(desc, init_bits)))
         dut = getattr(action, act)(shape, init=init_value(desc, init_bits))
     else:
+        decoy(rng, lambda: getattr(action, act)(shape))
         dut = getattr(action, act)(shape)
     port = dut.port
     mon = Mon()
